@@ -8,7 +8,9 @@ use serde_json::{json, Value};
 const CLK: usize = 1_773_400;
 
 fn chip(mode: AyMode, rate: usize) -> AymPrecise {
-    AymPrecise::new(SoundChip::AY, mode, CLK, rate)
+    let mut ay = AymPrecise::new(SoundChip::AY, mode, CLK, rate);
+    ay.verif_record_levels(true);
+    ay
 }
 fn mode_of(i: u64) -> AyMode {
     match i {
